@@ -476,8 +476,9 @@ package part
 //@   pure
 //@   maypanic
 //@ func New
-//@   property C17
+//@   property C17 C02 C03 C05 C19
 //@   flag nosafety
+//@   flag dyncall.opt=pure
 //@   ensures @empty result.root == nil && result.size == 0 && result.prevTxn != nil && fresh(result.prevTxn) && fresh(result.rootWatch)
 //@ func (*Set).ensureTree
 //@   property C17
